@@ -14,6 +14,13 @@
 // is itself cross-checked against Restore(TXID=n) while n is still a
 // restorable boundary. A subset of the histories also drives a real SQLite
 // connection (mattn) on the registered VFS and compares logical dumps.
+//
+// Time travel is exercised between polls, while a poll is in flight, inside a
+// read transaction during which a poll staged newer files (SetTargetTime /
+// ResetTime under a SHARED lock, then Unlock), and with primary commits inside
+// the time-travel window. A share of the histories opens the views with
+// hydration enabled (hydration.go): the same steps and the same oracle, with
+// ReadAt served from the local hydrated copy.
 package c18
 
 import (
@@ -80,16 +87,18 @@ func init() {
 		ID:    "C18",
 		Level: "exploration",
 		Rule: "generated primary histories (seeded PRNG) over {insert small/big/multi, update, DDL, delete half/all, incremental_vacuum(n|all), auto_vacuum=FULL shrink at commit, VACUUM, SyncAndWait, Compact(1) with level-0 retention 1ns|1h, Compact(1) whose level-1 file becomes visible to the reader one sync and one poll late, Compact(2), Snapshot, EnforceL0RetentionByTime} x {page size, auto_vacuum, checkpoint thresholds}; " +
-			"VFS steps placed between primary operations: Open, VerifPollOnce, poll under a SHARED lock (pending index) + Unlock, SetTargetTime(T from recorded level-0 header timestamps) between polls or while a poll is in flight (gated level-0 listing) / poll during time travel / ResetTime, Close; page cache 1 page | 8 pages | default; " +
+			"VFS steps placed between primary operations: Open, VerifPollOnce, poll under a SHARED lock (pending index) + Unlock, SetTargetTime(T from recorded level-0 header timestamps) between polls, while a poll is in flight (gated level-0 listing) or under a SHARED lock after a poll under that lock staged newer files (growth or a shrink) followed by Unlock / poll during time travel / primary commits and syncs inside the time-travel window / ResetTime (plain or under a SHARED lock), ResetTime outside time travel with unpolled or staged files, Close; page cache 1 page | 8 pages | default; " +
+			"hydration dimension (5 of 16 histories, one of them with the SQLite connection): the views are opened through litestream.VFS with HydrationEnabled (temp file | persistent file resumed by the next Open of the history); the end of the background hydration is awaited through the hydrator's own 'hydration complete' log record before anything is compared, or the hydration goroutine is held in flight at its first log record while the view polls / SetTargetTime / ResetTime and released afterwards; the same steps and the same oracle then run on reads served from the hydrated copy (observed: no replica fetch during the comparison); " +
 			"a quarter of the histories also poll a real SQLite (mattn) connection on the registered VFS, idle and inside a read transaction (logical dump + integrity_check vs the reference image, plus the byte comparison on that file). " +
 			"At every step: FileSize and ReadAt of every page (and three random sub-page ranges) vs image_n from the level-0 archive, n = VFSFile.Pos().TXID, mask page1[18:20] and page1[24:28] only; image_n cross-checked against Restore(TXID=n) while restorable; time travel vs Restore(Timestamp=T). " +
-			"Six pinned demonstration histories precede the generated ones (a,b,c = F5; d = F18; e = page last written by the last transaction of a level-1 file polled after its level-0 file, then level-0 retention; f = SetTargetTime while a poll that finds new files is in flight, held in its level-0 listing by a gating client). " +
+			"Twelve pinned demonstration histories precede the generated ones (a,b,c = F5; d = F18; e = page last written by the last transaction of a level-1 file polled after its level-0 file, then level-0 retention; f = SetTargetTime while a poll that finds new files is in flight, held in its level-0 listing by a gating client; g = SetTargetTime under a SHARED lock with staged growth, then with a staged shrink, then ResetTime under a lock with staged files; h = hydrated view: polls incl. a shrink, time travel, primary commits in the window, ResetTime, poll; i,j,k,l = F28..F31: poll while hydration is in flight, SetTargetTime while hydration is in flight, ResetTime outside time travel on a hydrated view, persistent hydrated copy resumed over a level-0 gap). " +
 			"distinct = hash(config, step sequence); non-trivial = >=3 comparisons at >=2 distinct TXIDs, >=1 poll that advanced the position, and >=1 commit decrease in the level-0 chain",
 		Assumptions: []string{
 			"file replica client only (no network); file mtime == LTX header timestamp as written by file.ReplicaClient",
 			"ltx decoder/LZ4 trusted; the level-0 overlay (oracle.Archive) is the reference, cross-checked against Restore(TXID=n)",
 			"VerifPollOnce (verif hook) is one call of pollReplicaClient; the VFS's own ticker is parked (PollInterval=24h)",
 			"a failing poll or Open is counted, not judged (the statement is about what is served at Pos())",
+			"hydration: VFSFile's hydrator is not reachable from outside the package; its completion, failures, 'disabled for time travel' and failed updates are taken from its slog records (handler called synchronously by the hydration goroutine), and the same handler is the suspension point of the held-in-flight steps; whether a comparison was served from the hydrated copy is observed as 'no OpenLTXFile call at the read side's client'",
 		},
 		Cases:       cases,
 		RunCase:     runCase,
@@ -201,8 +210,8 @@ type harness struct {
 	// what the history says never reached a persistent hydrated copy; the copy
 	// outlives the view, the next Open that resumes it inherits the ranges
 	persistMissed map[string][]missedRange
-	capH   *hydHandler
-	vfsNm  string
+	capH          *hydHandler
+	vfsNm         string
 
 	queue []string
 	toks  []string
